@@ -197,6 +197,12 @@ impl Replayer {
     /// Compares mapping, statistics and estimates after feeding one sample.
     fn step(&mut self, ctx: &mut Ctx, st: &Step, spec: &VcpSpec, vcp: &VcpMessage, what: &str) {
         ctx.evaluations += 1;
+        // the statistics object is Clone: a copy taken at any point must carry on exactly like
+        // the original (every 7th step continues on a clone)
+        if (st.prev_seq + st.duration_ms as usize + st.attempts) % 7 == 3 {
+            self.real = self.real.clone();
+            ctx.count("continued_on_clone");
+        }
         let cuts = &spec.cuts;
         // the sample is recorded under the characteristics of the chunk it belongs to (sequence prev+1)
         let seq = st.prev_seq + 1;
@@ -246,7 +252,18 @@ fn check_estimate(ctx: &mut Ctx, prev_seq: Option<usize>, prev_time_ms: i64, spe
         None => "20240804-101007-xyz-I".to_string(),
     };
     let id = ChunkIdentifier::new("KDMX".into(), VolumeIndex::new(17), name, Some(dt(prev_time_ms)));
+    // the local clock may be behind the upload time (skew): an estimate anchored on a known
+    // upload time must not depend on the clock at all
+    let clock_behind = prev_time_ms % 3 == 0;
+    if clock_behind {
+        let now_ms = prev_time_ms - 1000 - (prev_time_ms % 3_600_000);
+        install_clock(Some(Rc::new(move || dt(now_ms))));
+        ctx.count("clock_behind_upload_time");
+    }
     let got = estimate_next_chunk_time(&id, vcp, stats.map(|s| s.0)).map(|d| d.timestamp_millis());
+    if clock_behind {
+        install_clock(None);
+    }
     let want = model_estimate(prev_seq, prev_time_ms, &spec.cuts, stats.map(|s| s.1));
     ctx.evaluations += 1;
     if got != want {
@@ -343,7 +360,7 @@ impl Check for C19 {
                "stub": ["system clock (Utc::now seam) for identifiers without an upload time", "S3/HTTP (section 0, as in C18)"]})
     }
     fn required_probes(&self, _tier: Tier) -> Vec<&'static str> {
-        vec!["window_full", "estimate_none", "estimate_from_history_or_default", "beyond_last_cut", "missing_upload_time_uses_clock", "samples_recorded", "polling_history_steps"]
+        vec!["window_full", "estimate_none", "estimate_from_history_or_default", "beyond_last_cut", "missing_upload_time_uses_clock", "samples_recorded", "polling_history_steps", "continued_on_clone", "clock_behind_upload_time"]
     }
     fn budget_s(&self, tier: Tier) -> u64 {
         match tier {
@@ -368,7 +385,7 @@ impl Check for C19 {
             cfg.script.with_stats = true;
             cfg.script.drop_stats_after = None;
             cfg.faults.startup_fault_at = None;
-            if cfg.script.stop_after.is_none() && cfg.script.drop_chunks_after.is_none() && cfg.chunks_until_end.is_none() {
+            if cfg.script.stop_after.is_none() && cfg.script.stop_at_request.is_none() && cfg.script.drop_chunks_after.is_none() && cfg.chunks_until_end.is_none() {
                 cfg.script.stop_after = Some(40);
             }
             let seed = tape.seed();
